@@ -178,4 +178,18 @@ PLANS = {
                        "stub": ["sim tables / simulated disk", "sink (optionally stalling)"]},
         "assumptions": ["runtime differences between go1.26.8 (simulator) and the shipped toolchain are out of scope"],
     },
+    "C27": {
+        "level": "fault_enumeration",
+        "engine": "octoproc",
+        "technique": "deterministic simulation with crash injection at the process tier: real octosql binary, scratch HOME as durable disk, seeded crash point x mode (SIGKILL at a filesystem step, or kernel-made torn write at byte k via RLIMIT_FSIZE), optional second crash during the retry, then fault-free recovery invocations through the real plugin path",
+        "level_text": ("seeded sampling (thorough: plus systematic enumeration) of initial install state x configuration x operation (install latest / pinned / same version again / from config / repository add) x crash point x crash mode x torn-write length; "
+                       "after the last crash: octosql must still start, every database that resolved before must still run and answer with the previous or the new plugin version (the new one if the operation completed), "
+                       "and `octosql plugin install` must bring every configured database to a runnable version"),
+        "level_note": "trusted: kernel RLIMIT_FSIZE/SIGXFSZ semantics for torn writes, SIGKILL for crashes (process-kill model: the page cache survives; power-loss reordering of unsynced writes is not modelled); the HTTP transport is a file-serving stub (hook H5)",
+        "parts": [{"check": "c27", "kind": "proc", "script": "c27.py", "needs_plugin": True, "workers": 12, "quick": 192, "thorough": 20000}],
+        "rule": "each run draws (initial state, config, operation) = 60 templates, 1-2 crashes (point among those a clean run of the template passes, kill or tear:k); distinct = distinct (template, crash sequence) pairs",
+        "components": {"real": ["octosql binary: cmd, plugins/manager, plugins/repository, archiver, plugins/executor (exec + gRPC over unix socket), test plugin built on the plugins SDK"],
+                       "stub": ["HTTP transport (files)", "crash selection (hook H4 crash points read VERIF_CRASH)"]},
+        "assumptions": ["crash points of hook H4 sit between all filesystem steps of the three code paths"],
+    },
 }
